@@ -9,8 +9,10 @@ tier="${MUT_TIER:-quick}"
 R="${RCE_REPO:-/repo}"
 cd "$R" || exit 2
 git diff --quiet || { echo "$R has uncommitted changes" >&2; exit 2; }
-git apply "$D/patch.diff" || { echo "patch does not apply" >&2; exit 2; }
-trap 'git -C "$R" checkout -- . ; git -C "$R" clean -fdq src' EXIT
+# plain apply first; a patch written against an earlier commit of /repo (before a later fix: commit
+# touched neighbouring lines) is merged three-way from the blob ids it records
+git apply "$D/patch.diff" 2>/dev/null || git apply --3way "$D/patch.diff" >/dev/null 2>&1 || { git -C "$R" reset -q --hard HEAD; echo "patch does not apply" >&2; exit 2; }
+trap 'git -C "$R" reset -q --hard HEAD ; git -C "$R" clean -fdq src' EXIT
 res=""
 for id in "${ids[@]}"; do
   out=$("$V/check" "$id" "$tier" 2>&1); rc=$?
